@@ -944,7 +944,11 @@ class ServerSSM(SSM):
         # there is a value in the device information then use that one because
         # it came from reading device object property value or from an I-Am
         # message that was received
-        self.maxApduLengthAccepted = decode_max_apdu_length_accepted(apdu.apduMaxResp)
+        try:
+            self.maxApduLengthAccepted = decode_max_apdu_length_accepted(apdu.apduMaxResp)
+        except ValueError:
+            # reserved code point, fall back to the size every device accepts
+            self.maxApduLengthAccepted = 50
         if self.device_info and self.device_info.maxApduLengthAccepted is not None:
             if self.device_info.maxApduLengthAccepted < self.maxApduLengthAccepted:
                 if _debug: ServerSSM._debug("    - apduMaxResp encoding error")
